@@ -1,2 +1,337 @@
+"""seeded history generator (DESIGN.md 3.6): mostly-valid operation sequences over up to three
+vectors and three iterators, from all six storage states, plus a malformed stream, plus the
+derived families (panic at a callback, forget at an iterator step, failing allocator request)"""
+import random, zlib
+
+CLASSES = ["8x8", "3x1", "24x8", "1x1", "2x2", "16x16", "64x64", "2048x8", "8x8c", "3x1c", "16x16c", "64x64c"]
+TRACKED = [c for c in CLASSES if not c.endswith("c")]
+
+class G:
+    def __init__(self, rng, flavor):
+        self.r = rng
+        self.f = flavor
+        self.len = {}        # vec -> approximate length
+        self.cap = {}
+        self.iters = {}      # iter -> (kind, vec or None, remaining estimate)
+        self.ops = []
+        self.fresh = 0
+
+    # ---- helpers
+    def free_vec(self):
+        for v in range(4):
+            if v not in self.len:
+                return v
+        return None
+    def free_iter(self):
+        for i in range(3):
+            if i not in self.iters:
+                return i
+        return None
+    def borrowed(self, v):
+        return any(it[1] == v and it[0] != "into" for it in self.iters.values())
+    def usable(self):
+        return [v for v in self.len if not self.borrowed(v)]
+    def idx(self, v, strict):
+        """an index argument: mostly valid"""
+        L = self.len[v]
+        r = self.r
+        if r.random() < self.f.get("malformed", 0.12):
+            return r.choice(["L+1", "L+2", "M", "M-1", "L+7", "M/2", "L"] if strict else ["L+1", "L+2", "M", "M-1", "L+7", "M/2"])
+        pool = ["0", "L-1", "L/2", "1", "L-2", str(r.randint(0, max(L - 1, 0)))]
+        if not strict:
+            pool += ["L", "L"]
+        c = r.choice(pool)
+        return c
+    def bounds(self, v):
+        r = self.r
+        L = self.len[v]
+        if r.random() < self.f.get("malformed", 0.12):
+            a = r.choice(["0", "1", "L", "L+1", "M", "M-1", "L-1"])
+            b = r.choice(["0", "1", "L", "L+1", "M", "M-1", "L-1"])
+            return r.choice(["i", "e"]) + a, r.choice(["i", "e"]) + b
+        s = r.randint(0, L)
+        e = r.randint(s, L)
+        bs = r.choice(["u"] if s == 0 else []) if (s == 0 and r.random() < 0.5) else None
+        if bs is None:
+            bs = ("i%d" % s) if (s == 0 or r.random() < 0.7) else ("e%d" % (s - 1))
+        be = "u" if (e == L and r.random() < 0.5) else (("e%d" % e) if (e == 0 or r.random() < 0.7) else ("i%d" % (e - 1)))
+        return bs, be
+    def tf(self, n, default="TF", p=0.0):
+        r = self.r
+        s = "".join(r.choice(default) for _ in range(n))
+        if p and s and r.random() < p:
+            k = r.randrange(len(s))
+            s = s[:k] + "P" + s[k + 1:]
+        return s or "-"
+    def iterscript(self, n):
+        r = self.r
+        if self.f.get("illbehaved") and r.random() < 0.6:
+            s = "".join(r.choice("SSSN") for _ in range(n + r.randint(0, 3)))
+            if r.random() < 0.5:
+                s = "h%d:%s" % (r.choice([0, 1, 3, 7, 1000]), s)
+        else:
+            s = "S" * n
+        if self.f.get("panic") and s and r.random() < 0.25:
+            k = r.randrange(len(s.split(":")[-1]))
+            body = s.split(":")[-1]
+            body = body[:k] + "P" + body[k + 1:]
+            s = body
+        return s or "-"
+
+    # ---- start states
+    def start(self, v, state=None):
+        r = self.r
+        st = state or r.choice(["never", "allocated_empty", "zero_cap", "partly", "full", "overaligned", "overaligned0"])
+        n = 0
+        if st == "never":
+            self.ops.append(r.choice(["new %d", "default %d", "mac0 %d", "wcap %d 0"]) % v)
+            cap = 0
+        elif st == "allocated_empty":
+            cap = r.choice([1, 2, 4, 5, 8])
+            self.ops.append("wcap %d %d" % (v, cap))
+        elif st == "zero_cap":
+            self.ops += ["wcap %d %d" % (v, r.choice([1, 4])), "shrinkfit %d" % v]
+            cap = 0
+        elif st == "partly":
+            cap = r.choice([4, 6, 8])
+            n = r.randint(1, cap - 1)
+            self.ops.append("wcap %d %d" % (v, cap))
+        elif st == "full":
+            cap = r.choice([1, 3, 4])
+            n = cap
+            self.ops.append("wcap %d %d" % (v, cap))
+        elif st == "overaligned":
+            cap = r.choice([1, 4, 6])
+            a = r.choice([8, 16, 32, 64, 128, 512, 4096])
+            n = r.randint(0, cap)
+            self.ops.append("walign %d %d %d" % (v, cap, a))
+        else:
+            cap = 0
+            a = r.choice([16, 32, 64, 256, 4096])
+            self.ops.append("walign %d 0 %d" % (v, a))
+        dup = r.random() < 0.3
+        for k in range(n):
+            self.ops.append("push %d%s" % (v, (" =%d" % r.choice([1, 2, 2, 3, 7])) if dup else ""))
+        self.fresh += n
+        self.len[v] = n
+        self.cap[v] = cap
+        return st
+
+    # ---- one random operation
+    def op(self):
+        r = self.r
+        f = self.f
+        us = self.usable()
+        choices = []
+        w = f.get("weights", {})
+        def add(name, wt):
+            choices.append((name, wt * w.get(name, 1.0)))
+        if us:
+            for nm, wt in [("push", 6), ("pop", 3), ("insert", 4), ("remove", 3), ("swaprm", 2), ("trunc", 2), ("clear", 0.7),
+                           ("resize", 1.5), ("resizewith", 1), ("extslice", 1.5), ("extend", 1.2), ("extwithin", 1.5),
+                           ("dedup", 1), ("dedupby", 1), ("dedupkey", 0.7), ("retain", 1.5), ("rmitem", 0.8),
+                           ("reserve", 1.2), ("reservex", 1), ("shrinkfit", 1.2), ("shrinkto", 1),
+                           ("spare", 0.4), ("splitspare", 0.4), ("index", 0.8), ("slice", 0.6),
+                           ("drop", 0.3), ("rawrt", 0.3 if f.get("raw") else 0.0), ("leak", 0.1 if f.get("leak") else 0.0)]:
+                add(nm, wt)
+            if self.free_vec() is not None:
+                for nm, wt in [("clone", 1.2), ("splitoff", 1.5), ("drainvec", 0.8)]:
+                    add(nm, wt)
+            if len(us) >= 2:
+                add("append", 1.5)
+                add("cmp", 0.5)
+            if self.free_iter() is not None:
+                for nm, wt in [("drain", 2.5), ("splice", 3), ("dfilter", 2.5), ("intoiter", 1.5)]:
+                    add(nm, wt)
+        if self.free_vec() is not None:
+            add("newvec", 1.0 if us else 50)
+            add("fromslice", 0.6); add("fromiter", 0.5); add("macrep", 0.4); add("maclist", 0.3)
+        if self.iters:
+            add("iterstep", 9)
+            add("iterend", 2.5)
+        tot = sum(c[1] for c in choices)
+        x = r.random() * tot
+        for nm, wt in choices:
+            x -= wt
+            if x <= 0:
+                break
+        getattr(self, "o_" + nm)()
+
+    def pick(self):
+        return self.r.choice(self.usable())
+
+    def o_newvec(self):
+        self.start(self.free_vec())
+    def o_fromslice(self):
+        v = self.free_vec(); n = self.r.randint(0, 5)
+        self.ops.append("%s %d %d" % (self.r.choice(["fromslice", "frommut"]), v, n)); self.len[v] = n; self.cap[v] = n; self.fresh += 2 * n
+    def o_fromiter(self):
+        v = self.free_vec(); n = self.r.randint(0, 6)
+        self.ops.append("fromiter %d %s" % (v, self.iterscript(n))); self.len[v] = n; self.cap[v] = n; self.fresh += n + 3
+    def o_macrep(self):
+        v = self.free_vec(); n = self.r.randint(0, 5)
+        self.ops.append("macrep %d %d" % (v, n)); self.len[v] = n; self.cap[v] = n; self.fresh += n + 1
+    def o_maclist(self):
+        v = self.free_vec()
+        self.ops.append("maclist %d" % v); self.len[v] = 3; self.cap[v] = 4; self.fresh += 3
+    def o_push(self):
+        v = self.pick()
+        self.ops.append("push %d%s" % (v, (" =%d" % self.r.choice([1, 2, 3, 7])) if self.r.random() < 0.25 else ""))
+        self.len[v] += 1; self.fresh += 1
+    def o_pop(self):
+        v = self.pick(); self.ops.append("pop %d" % v); self.len[v] = max(0, self.len[v] - 1)
+    def o_insert(self):
+        v = self.pick(); self.ops.append("insert %d %s" % (v, self.idx(v, False))); self.len[v] += 1; self.fresh += 1
+    def o_remove(self):
+        v = self.pick(); self.ops.append("remove %d %s" % (v, self.idx(v, True))); self.len[v] = max(0, self.len[v] - 1)
+    def o_swaprm(self):
+        v = self.pick(); self.ops.append("swaprm %d %s" % (v, self.idx(v, True))); self.len[v] = max(0, self.len[v] - 1)
+    def o_trunc(self):
+        v = self.pick(); a = self.r.choice(["0", "1", "L-1", "L", "L+3", "L/2"]); self.ops.append("trunc %d %s" % (v, a)); self.len[v] = max(0, self.len[v] - 1)
+    def o_clear(self):
+        v = self.pick(); self.ops.append("clear %d" % v); self.len[v] = 0
+    def o_resize(self):
+        v = self.pick(); a = self.r.choice(["0", "L", "L+1", "L+3", "L-1", "C", "C+1", "L/2"]); self.ops.append("resize %d %s" % (v, a)); self.len[v] += 2; self.fresh += 5
+    def o_resizewith(self):
+        v = self.pick(); a = self.r.choice(["0", "L", "L+1", "L+3", "L-1", "C+1"])
+        sc = "-" if not self.f.get("panic") or self.r.random() < 0.6 else self.tf(4, "S", 1.0)
+        self.ops.append("resizewith %d %s %s" % (v, a, sc)); self.len[v] += 2; self.fresh += 4
+    def o_extslice(self):
+        v = self.pick(); n = self.r.randint(0, 5); self.ops.append("extslice %d %d" % (v, n)); self.len[v] += n; self.fresh += 2 * n
+    def o_extend(self):
+        v = self.pick(); n = self.r.randint(0, 5); self.ops.append("extend %d %s" % (v, self.iterscript(n))); self.len[v] += n; self.fresh += n + 3
+    def o_extwithin(self):
+        v = self.pick(); bs, be = self.bounds(v); self.ops.append("extwithin %d %s %s" % (v, bs, be)); self.fresh += self.len[v]; self.len[v] *= 2
+    def o_append(self):
+        us = self.usable(); a, b = self.r.sample(us, 2); self.ops.append("append %d %d" % (a, b)); self.len[a] += self.len[b]; self.len[b] = 0
+    def o_dedup(self):
+        v = self.pick(); self.ops.append("dedup %d" % v)
+    def o_dedupkey(self):
+        v = self.pick(); self.ops.append("dedupkey %d" % v)
+    def o_dedupby(self):
+        v = self.pick(); self.ops.append("dedupby %d %s" % (v, self.tf(max(self.len[v] - 1, 1), "TF", 0.3 if self.f.get("panic") else 0)))
+    def o_retain(self):
+        v = self.pick(); self.ops.append("retain %d %s" % (v, self.tf(self.len[v] + self.r.randint(-1, 1), "TTF", 0.3 if self.f.get("panic") else 0)))
+    def o_rmitem(self):
+        v = self.pick(); self.ops.append("rmitem %d %d" % (v, self.r.choice([0, 1, 2, 3, 7, 50]))); self.fresh += 1
+    def o_reserve(self):
+        v = self.pick(); self.ops.append("reserve %d %s" % (v, self.r.choice(["0", "1", "3", "C", "C+1", "17", "L"])))
+    def o_reservex(self):
+        v = self.pick(); self.ops.append("reservex %d %s" % (v, self.r.choice(["0", "1", "3", "C", "C+1", "9"])))
+    def o_shrinkfit(self):
+        v = self.pick(); self.ops.append("shrinkfit %d" % v)
+    def o_shrinkto(self):
+        v = self.pick(); self.ops.append("shrinkto %d %s" % (v, self.r.choice(["0", "L", "L+1", "C", "C-1", "C+1", "L/2", "1"])))
+    def o_spare(self):
+        self.ops.append("spare %d" % self.pick())
+    def o_splitspare(self):
+        self.ops.append("splitspare %d" % self.pick())
+    def o_index(self):
+        v = self.pick(); self.ops.append("index %d %s" % (v, self.idx(v, True)))
+    def o_slice(self):
+        v = self.pick(); bs, be = self.bounds(v); self.ops.append("slice %d %s %s" % (v, bs, be))
+    def o_cmp(self):
+        a, b = self.r.sample(self.usable(), 2); self.ops.append("cmp %d %d" % (a, b))
+    def o_drop(self):
+        v = self.pick(); self.ops.append("drop %d" % v); del self.len[v]
+    def o_rawrt(self):
+        v = self.pick(); self.ops.append("rawrt %d %d" % (v, self.r.choice([1, 3])))
+    def o_leak(self):
+        v = self.pick(); self.ops.append("leak %d" % v); del self.len[v]
+    def o_clone(self):
+        v = self.pick(); w = self.free_vec(); self.ops.append("clone %d %d" % (v, w)); self.len[w] = self.len[v]; self.cap[w] = 0; self.fresh += self.len[v]
+    def o_splitoff(self):
+        v = self.pick(); w = self.free_vec(); self.ops.append("splitoff %d %d %s" % (v, w, self.idx(v, False))); self.len[w] = self.len[v] // 2; self.len[v] -= self.len[w]; self.cap[w] = 0
+    def o_drainvec(self):
+        v = self.pick(); w = self.free_vec(); self.ops.append("drainvec %d %d" % (v, w)); self.len[w] = self.len[v]; self.len[v] = 0; self.cap[w] = 0
+    def o_drain(self):
+        v = self.pick(); i = self.free_iter(); bs, be = self.bounds(v)
+        self.ops.append("drain %d %d %s %s" % (v, i, bs, be)); self.iters[i] = ("drain", v, self.len[v])
+    def o_splice(self):
+        v = self.pick(); i = self.free_iter(); bs, be = self.bounds(v); n = self.r.choice([0, 0, 1, 2, 3, 5, self.len[v]])
+        self.ops.append("splice %d %d %s %s %s" % (v, i, bs, be, self.iterscript(n))); self.iters[i] = ("splice", v, self.len[v]); self.fresh += n + 3
+    def o_dfilter(self):
+        v = self.pick(); i = self.free_iter()
+        self.ops.append("dfilter %d %d %s" % (v, i, self.tf(self.len[v] + 1, "TF", 0.3 if self.f.get("panic") else 0))); self.iters[i] = ("filter", v, self.len[v])
+    def o_intoiter(self):
+        v = self.pick(); i = self.free_iter()
+        self.ops.append("intoiter %d %d" % (v, i)); self.iters[i] = ("into", None, self.len[v]); del self.len[v]
+    def o_iterstep(self):
+        i = self.r.choice(list(self.iters)); kind = self.iters[i][0]
+        c = self.r.random()
+        if c < 0.45:
+            self.ops.append("next %d" % i)
+        elif c < 0.75 and kind != "filter":
+            self.ops.append("nextb %d" % i)
+        elif c < 0.87:
+            self.ops.append("hint %d" % i)
+        elif kind == "into" and c < 0.94:
+            self.ops.append("asslice %d" % i)
+        elif kind == "into" and self.free_iter() is not None and self.f.get("cloneit", True):
+            j = self.free_iter(); self.ops.append("cloneit %d %d" % (i, j)); self.iters[j] = ("into", None, self.iters[i][2]); self.fresh += self.iters[i][2]
+        else:
+            self.ops.append("next %d" % i)
+    def o_iterend(self):
+        i = self.r.choice(list(self.iters)); kind, v, n = self.iters[i]
+        if self.f.get("forget") and self.r.random() < 0.5:
+            self.ops.append("forget %d" % i)
+        else:
+            self.ops.append("dropit %d" % i)
+        del self.iters[i]
+        if v is not None and v in self.len:
+            self.len[v] = max(self.len[v], 1)
+
+def make(rng, flavor, hid, cls=None, nops=None, start=None):
+    g = G(rng, flavor)
+    cls = cls or rng.choice(flavor.get("classes", CLASSES))
+    g.start(0, start or flavor.get("start"))
+    n = nops if nops is not None else rng.randint(1, flavor.get("maxops", 22))
+    limit = 180 if cls.startswith("1x1") else 1500
+    for _ in range(n):
+        if g.fresh > limit:
+            break
+        g.op()
+    hdr = "H %s cls=%s" % (hid, cls)
+    if flavor.get("prof"):
+        hdr += " prof=" + flavor["prof"]
+    if flavor.get("panic") and cls in TRACKED and rng.random() < 0.5 and g.fresh > 0:
+        ids = sorted(set(rng.randrange(g.fresh) for _ in range(rng.choice([1, 1, 2]))))
+        if rng.random() < 0.6:
+            hdr += " dp=" + ",".join(map(str, ids))
+        else:
+            hdr += " cp=" + ",".join(map(str, ids))
+    return hdr + " :: " + " ; ".join(g.ops)
+
+FLAVORS = {
+    "plain": {},
+    "C01": {"malformed": 0.06},
+    "C02": {"malformed": 0.04, "classes": TRACKED},
+    "C03": {"malformed": 0.04, "weights": {"shrinkfit": 3, "shrinkto": 2, "reserve": 2, "reservex": 2, "clear": 3, "splice": 1.5, "splitoff": 2}},
+    "C04": {"panic": True, "classes": TRACKED, "malformed": 0.05},
+    "C05": {"forget": True, "classes": TRACKED, "malformed": 0.03, "weights": {"drain": 2, "splice": 2, "dfilter": 2, "intoiter": 2, "iterstep": 1.5, "iterend": 2}},
+    "C06": {"start": "never", "maxops": 6, "malformed": 0.05},
+    "C07": {"malformed": 0.03, "weights": {"reserve": 3, "reservex": 3, "shrinkfit": 2, "shrinkto": 3, "spare": 3, "splitspare": 3}},
+    "C08": {"start": "overaligned", "malformed": 0.03, "weights": {"shrinkfit": 3, "clear": 3, "shrinkto": 2, "reserve": 2, "splitoff": 2, "drainvec": 2, "intoiter": 1.5}},
+    "C10": {"malformed": 0.03, "weights": {"drain": 3, "splice": 3, "dfilter": 3, "intoiter": 3, "iterstep": 2.5}},
+    "C11": {"malformed": 0.5},
+    "C12": {"classes": TRACKED, "malformed": 0.03, "weights": {"clone": 4, "intoiter": 4, "iterstep": 2}},
+    "C14": {"raw": True, "malformed": 0.03, "weights": {"rawrt": 12}},
+    "C15": {"malformed": 0.02, "weights": {"cmp": 25, "clone": 3, "push": 2}},
+    "C17": {"illbehaved": True, "classes": TRACKED, "malformed": 0.03, "weights": {"splice": 4, "extend": 3, "fromiter": 3, "retain": 2, "dedupby": 2, "dfilter": 2}},
+    "C18": {"malformed": 0.02},
+}
+
+def seed_for(ctx, salt=""):
+    return (ctx.seed * 1000003 + zlib.crc32((ctx.pid + salt).encode())) & 0xffffffff
+
 def generate(ctx, P):
-    return []
+    pid = ctx.pid
+    if pid not in FLAVORS:
+        return []
+    rng = random.Random(seed_for(ctx))
+    n = P.get("quick_n", 500) if ctx.tier == "quick" else P.get("thorough_n", 12000)
+    fl = FLAVORS[pid]
+    out = []
+    for k in range(n):
+        out.append(make(rng, fl, "g%d" % k))
+    return out
